@@ -313,3 +313,25 @@ brk("S04", ["C01", "C12"], "solve_brute.py", "            state_indexers=state_i
     "            state_indexers=state_indexers[period],\n        )", "params not passed to the continuous problem")
 brk("S05", ["C02", "C12"], "simulate.py", "        data_scs, data_choice_segments = create_data_scs(\n            states=states,\n            model=model,\n            period=period,\n        )",
     "        data_scs, data_choice_segments = create_data_scs(\n            states=states,\n            model=model,\n        )", "period not passed to create_data_scs")
+
+# ------------------------------------------------------------------------------ benign refactors (must stay silent)
+keep("V12", ALL, [("simulate.py", "        choices = {**dense_choices, **sparse_choices, **cont_choices}\n",
+                   "        choices = dense_choices | sparse_choices | cont_choices\n", 1)], why="dict merge operator instead of ** display")
+keep("V13", ALL, [("solve_brute.py", "        dense_vars=list(state_choice_space.dense_vars),", "        dense_vars=[*state_choice_space.dense_vars],", 1)],
+     why="[*x] for list(x)")
+keep("V14", ALL, [("simulate.py", "        dense_vars_grid_shape = tuple(\n            len(grid) for grid in data_scs.dense_vars.values()\n        )\n        cont_choice_grid_shape = tuple(\n            len(grid) for grid in continuous_choice_grids[period].values()\n        )\n",
+                   "        cont_choice_grid_shape = tuple(\n            len(grid) for grid in continuous_choice_grids[period].values()\n        )\n        dense_vars_grid_shape = tuple(\n            len(grid) for grid in data_scs.dense_vars.values()\n        )\n", 1)],
+     why="independent statements reordered")
+keep("V15", ALL, [("simulate.py", "        if sparse_argmax is not None:\n            cont_choice_argmax", "        if not (sparse_argmax is None):\n            cont_choice_argmax", 1)],
+     why="negated None test")
+keep("V16", ALL, [("simulate.py", "        data_scs, data_choice_segments = create_data_scs(\n            states=states,\n            model=model,\n            period=period,\n        )",
+                   "        data_scs, data_choice_segments = create_data_scs(states, model, period)", 1)], why="positional call of an internal function")
+keep("V17", ALL, [("entry_point.py", "    _solve_model = partial(\n        solve,\n        state_choice_spaces=state_choice_spaces,\n        state_indexers=state_indexers,",
+                   "    _solve_model = partial(\n        solve,\n        state_indexers=state_indexers,\n        state_choice_spaces=state_choice_spaces,", 1)], why="keyword arguments reordered")
+keep("V18", ALL, [("grids.py", '        error_messages.append("start must be less than stop")', '        error_messages.append("start has to be strictly below stop")', 1),
+                  ("user_model.py", '"Number of periods must be a positive integer."', '"n_periods must be >= 1."', 1)], why="error message texts changed")
+keep("V19", ALL, [("model_functions.py", "            ccv = (ccvs_at_nodes * node_weights).sum()\n", "            weighted = node_weights * ccvs_at_nodes\n            ccv = jnp.sum(weighted)\n", 1)],
+     why="commuted product, function spelling of sum, temporary")
+keep("V20", ALL, [("argmax.py", "    _max = jnp.max(a, axis=-1, keepdims=True, initial=initial, where=where)\n", "    _max = a.max(axis=-1, keepdims=True, where=where, initial=initial)\n", 1)],
+     why="method spelling of max in the kernel")
+keep("V21", ALL, [("simulate.py", '        logger.info("Period: %s", period)\n\n    processed', '        logger.debug("Period %s done", period)\n\n    processed', 1)], why="logging changed")
